@@ -358,6 +358,7 @@ class ReadEvents(InoSpec):
         g = self.base_globals()
         g["Inotify._close_resources"] = close_resources_contract(self)
         g["Inotify._add_watch"] = self.h_add_watch
+        g["Inotify._add_dir_watch"] = self.h_add_dir_watch
         g["Inotify._parse_event_buffer"] = self.h_parse
         g["os.walk"] = self.h_walk
         return g
@@ -389,6 +390,26 @@ class ReadEvents(InoSpec):
         self.g["K"] = z3.Store(self.g["K"], wd, True)
         self.added.append(p)
         return VInt(wd)
+
+    def h_add_dir_watch(self, ex, recv, a, k, n):
+        """call-side contract of _add_dir_watch(path, mask, recursive=True) (proved by AddDirWatch): raises OSError or
+        returns with the path watched; either way path entries and live descriptors only accumulate and W1 holds"""
+        W = self.W
+        p = W.Path.unwrap(a[0])
+        old = self.maps(ex)
+        fails = ex.choose(2, "_add_dir_watch raises OSError (vanished, not a directory, kernel refused)") == 1
+        self.havoc_maps(ex, move_records=False)
+        new = self.maps(ex)
+        w, q = z3.Const("dw", z3.IntSort()), z3.Const("dq", W.PS)
+        ex.assume(z3.ForAll([q], z3.Implies(old["wp"].dom[q], new["wp"].dom[q])))
+        ex.assume(z3.ForAll([w], z3.Implies(old["K"][w], new["K"][w])))
+        ex.assume(z3.ForAll([w], z3.Implies(new["K"][w], new["pw"].dom[w])))
+        self.dir_watch_calls = getattr(self, "dir_watch_calls", [])
+        self.dir_watch_calls.append((p, fails))
+        if fails:
+            raise Raise(VExc("OSError"), "_add_dir_watch()")
+        ex.assume(new["wp"].dom[p])
+        return None
 
     def h_walk(self, ex, a, k, n):
         W = self.W
@@ -475,11 +496,17 @@ class ReadEvents(InoSpec):
         isd = z3.BitVecVal(T.ABI["IN_ISDIR"], 32)
         ex.assume(z3.Or(*[z3.Or(mask == b, mask == (b | isd)) for b in bits]))
         ex.assume(z3.Or(wd == -1, self.g["K"][wd]))
+        # E8: records about a child of the watched directory (create/delete/moved_from/moved_to) carry the child's name
+        child = z3.BitVecVal(T.ABI["IN_CREATE"] | T.ABI["IN_DELETE"] | T.ABI["IN_MOVED_FROM"] | T.ABI["IN_MOVED_TO"], 32)
+        ex.assume(z3.Implies((mask & child) != 0, W.nonempty(W.RecTT.proj[3](t))))
         self.maps_rec0 = self.maps(ex)
+        sc = ex.scope.lookup("event_list")
+        self.el_rec0 = sc.vars["event_list"] if sc is not None else None
         self.mf_rec0 = ex.heap[(self.me.id, "_moved_from_events")]
         self.added = []
         self.add_failed_first = False
         self.add_calls = 0
+        self.dir_watch_calls = []
         # IN_IGNORED is the last record for its descriptor: the kernel has dropped that watch
         ign = (mask & z3.BitVecVal(T.ABI["IN_IGNORED"], 32)) != 0
         self.g["K"] = z3.If(ign, z3.Store(self.g["K"], wd, False), self.g["K"])
@@ -498,6 +525,17 @@ class ReadEvents(InoSpec):
         src = z3.If(W.nonempty(name), W.join(wd_path, name), wd_path)
         rec = self.recursive
         live = wd != -1
+        # what the batch hands on for this record: one event with the record's own fields whose path is the CURRENT path
+        # of the record's descriptor (as of this record - an earlier record of the same batch may have renamed it) + name
+        sc = ex.scope.lookup("event_list")
+        el0, el1 = self.el_rec0, (sc.vars["event_list"] if sc is not None else None)
+        if isinstance(el0, VList) and isinstance(el1, VList):
+            ev = el1.arr[el0.n]
+            P = W.NEvTT.proj
+            ex.oblige("record[the event handed on carries the record's fields and the current path of its descriptor + name (also when an earlier record of the batch renamed that directory)]",
+                      z3.Implies(live, z3.And(el1.n >= el0.n + 1, P[0](ev) == wd, P[1](ev) == mask, P[2](ev) == W.RecTT.proj[2](t), P[3](ev) == name, P[4](ev) == src)))
+        else:
+            ex.oblige("record[the batch is a list of native events]", False)
         if self.added:
             ex.oblige("record[watches are added only by a recursive instance, only for a directory announced by IN_CREATE]", z3.And(rec, bit("IN_CREATE"), isd))
         ex.oblige("record[IN_CREATE of a directory under a recursive watch: the new directory is watched (or the kernel refused it / it vanished)]",
@@ -518,8 +556,13 @@ class ReadEvents(InoSpec):
         nv = m1["pw"].val[m0["wp"].val[old]]
         ex.oblige("record[second half of the rename of a watched directory: its entry moves to the new path, same descriptor, both maps]",
                   z3.Implies(z3.And(live, bit("IN_MOVED_TO"), known, old != src), z3.And(m1["wp"].dom[src], m1["wp"].val[src] == m0["wp"].val[old], z3.Or(nv == src, W.under(src, nv)), z3.Not(m1["wp"].dom[old]))))
-        ex.oblige("record[a directory that arrives without a known source (moved in) is watched by a recursive instance]",
-                  z3.Implies(z3.And(live, rec, bit("IN_MOVED_TO"), isd, z3.Not(known)), m1["wp"].dom[src]), hints={"timeout_ms": 1500, "no_fallback": True})
+        dwc = getattr(self, "dir_watch_calls", [])
+        ex.oblige("record[a directory that arrives without a known watched source (moved in from outside, or renamed before its creation was processed) is watched by a recursive instance, unless it vanished or the kernel refused]",
+                  z3.Implies(z3.And(live, rec, bit("IN_MOVED_TO"), isd, z3.Not(known)), z3.Or(m1["wp"].dom[src], z3.BoolVal(any(f for _p, f in dwc)))))
+        for dp, _f in dwc:
+            ex.oblige("record[a whole directory is put under watch only by a recursive instance, for the directory the record itself announces (IN_MOVED_TO without a known watched source)]",
+                      z3.And(rec, bit("IN_MOVED_TO"), isd, z3.Not(known), dp == src))
+        ex.oblige("record[at most one directory installation per record]", len(dwc) <= 1)
         ex.oblige("record[other kinds of records leave the path->descriptor map alone]",
                   z3.Implies(z3.And(live, z3.Not(bit("IN_MOVED_TO")), z3.Not(bit("IN_IGNORED")), z3.Not(z3.And(bit("IN_CREATE"), isd))), z3.And(m1["wp"].dom == m0["wp"].dom, m1["wp"].val == m0["wp"].val)))
 
@@ -688,8 +731,11 @@ class AddDirWatch(InoSpec):
             if ex.choose(2, "_add_watch raises OSError") == 1:
                 raise Raise(VExc("OSError"), "_add_watch()")
             wd = ex.fresh_term(z3.IntSort(), "wd")
-            wp = ex.heap[(self.me.id, "_wd_for_path")]
+            ex.assume(wd >= 1)
+            wp, pw = ex.heap[(self.me.id, "_wd_for_path")], ex.heap[(self.me.id, "_path_for_wd")]
             ex.heap[(self.me.id, "_wd_for_path")] = wp.with_(dom=z3.Store(wp.dom, p, True), val=z3.Store(wp.val, p, wd))
+            ex.heap[(self.me.id, "_path_for_wd")] = pw.with_(dom=z3.Store(pw.dom, wd, True), val=z3.Store(pw.val, wd, p))
+            self.g["K"] = z3.Store(self.g["K"], wd, True)   # E8: the descriptor the kernel returned is live
             self.adds += 1
             return VInt(wd)
 
@@ -706,6 +752,18 @@ class AddDirWatch(InoSpec):
 
     def havoc_wp(self, ex):
         ex.heap[(self.me.id, "_wd_for_path")] = ex.fresh(self.W.TWP, "_wd_for_path")
+        ex.heap[(self.me.id, "_path_for_wd")] = ex.fresh(self.W.TPW, "_path_for_wd")
+        self.g["K"] = ex.fresh_term(self.g["K"].sort(), "kernel_watches")
+
+    def accumulate(self, ex):
+        """what a caller inside read_events relies on, whether the call returns or raises: nothing is forgotten - path
+        entries, live descriptors and W1 (every live descriptor has a path entry) survive"""
+        W = self.W
+        w, p = z3.Const("cw", z3.IntSort()), z3.Const("cp", W.PS)
+        wp, pw = ex.heap[(self.me.id, "_wd_for_path")], ex.heap[(self.me.id, "_path_for_wd")]
+        return [("path entries only accumulate", z3.ForAll([p], z3.Implies(self.wp0.dom[p], wp.dom[p]))),
+                ("live descriptors stay live", z3.ForAll([w], z3.Implies(self.K0[w], self.g["K"][w]))),
+                ("every live kernel descriptor has a path entry", z3.ForAll([w], z3.Implies(self.g["K"][w], pw.dom[w])))]
 
     def setup(self, ex):
         W = self.W
@@ -714,6 +772,9 @@ class AddDirWatch(InoSpec):
         self.follow = TBool.unwrap(ex.heap[(self.me.id, "_follow_symlink")])
         self.rec = bool(ex.choose(2, "recursive"))
         self.wp0 = ex.heap[(self.me.id, "_wd_for_path")]
+        self.K0 = self.g["K"]
+        w = z3.Const("cw0", z3.IntSort())
+        ex.assume(z3.ForAll([w], z3.Implies(self.K0[w], ex.heap[(self.me.id, "_path_for_wd")].dom[w])))   # requires W1
         self.walk = None
         self.adds = 0
         self.kk = None
@@ -743,7 +804,7 @@ class AddDirWatch(InoSpec):
         wp = ex.heap[(self.me.id, "_wd_for_path")]
         j, i = z3.Const("aj", z3.IntSort()), z3.Const("ai", z3.IntSort())
         full = lambda j, i: self.want(j, i)
-        return [("watches only accumulate (root included)", self.grows(ex)),
+        return self.accumulate(ex) + [("watches only accumulate (root included)", self.grows(ex)),
                 ("every directory of the walked prefix is watched (symlinks skipped unless followed)", z3.ForAll([j, i], z3.Implies(z3.And(0 <= j, j < k, 0 <= i, i < self.tri(j)[1].n, self.want(j, i)[1]), wp.dom[self.want(j, i)[0]])))]
 
     def inv_inner(self, ex, i):
@@ -765,8 +826,13 @@ class AddDirWatch(InoSpec):
             p = z3.Const("pp", W.PS)
             ex.oblige("post[non-recursive: only the root is watched]", z3.And(z3.BoolVal(self.adds == 1), z3.ForAll([p], wp.dom[p] == z3.Or(self.wp0.dom[p], p == self.p))))
 
+        for nm, f in self.accumulate(ex):
+            ex.oblige(f"post[{nm}]", f)
+
     def post_raise(self, ex, exc, site):
         ex.oblige("raises[only OSError: not a directory, or the kernel refused a watch]", exc.cls == "OSError")
+        for nm, f in self.accumulate(ex):
+            ex.oblige(f"raises[{nm}]", f)
 
 
 # ====================================================================================== Inotify.__init__
